@@ -123,6 +123,9 @@ func (a *ACL) fault(fn string) (pb.Response, bool) {
 	switch a.Fault[fn] {
 	case "status":
 		return errResp("acl: injected failure"), true
+	case "transport":
+		// what the shim answers when the call could not be delivered at all
+		return errResp("[tx] error sending INVOKE_CHAINCODE: stream closed"), true
 	case "empty":
 		return ok(nil), true
 	case "garbled":
@@ -139,6 +142,13 @@ func (a *ACL) Invoke(args [][]byte) pb.Response {
 		return errResp("acl: no function")
 	}
 	fn := string(args[0])
+	if a.Fault[fn] == "refused_with_record" {
+		// the service refuses (status 403) and attaches, for diagnostics, the record it would have answered with
+		a.Fault[fn] = ""
+		r := a.Invoke(args)
+		a.Fault[fn] = "refused_with_record"
+		return pb.Response{Status: 403, Message: "acl: access denied", Payload: r.Payload}
+	}
 	a.Calls = append(a.Calls, fn)
 	if r, isFault := a.fault(fn); isFault {
 		return r
